@@ -436,9 +436,10 @@ func (m *Machine) fireTimer() bool {
 			best = t
 		}
 	}
-	if best == nil {
+	if best == nil || m.timerBudget <= 0 {
 		return false
 	}
+	m.timerBudget--
 	best.fired = true
 	m.timersFired++
 	if best.fn != nil {
